@@ -139,6 +139,49 @@ def exhaustive(rep, tier):
                        detail="outputs markup-free / URL-safe, decode back to the input; handler output decodes back for every charset; filters act character-wise on %d strings" % n2))
 
 
+def whole_string(rep, tier):
+    """R4's precondition, read from the source: the substitutions replace every match (no count limit), and a
+    bounded run on long strings (the per-code-point sweep says nothing about the 33rd special character)"""
+    import time
+    import html
+    from mako import filters as F
+    t0 = time.time()
+    tree = ast.parse(read_repo("mako/filters.py"))
+    limited = []
+    for n in ast.walk(tree):
+        if isinstance(n, ast.Call) and isinstance(n.func, ast.Attribute) and n.func.attr == "sub":
+            is_re_mod = isinstance(n.func.value, ast.Name) and n.func.value.id == "re"
+            npos = len(n.args) - (1 if is_re_mod else 0)          # re.sub(pattern, repl, string[, count[, flags]]) / compiled.sub(repl, string[, count])
+            if npos > 2 or any(k.arg == "count" for k in n.keywords):
+                limited.append("line %d: %s" % (n.lineno, ast.unparse(n)[:80]))
+    rep.add(Result("C10.sub-replaces-every-match", DISCHARGED if not limited else UNDECIDED, klass="L", backend="ast-scan", function="mako.filters", time_s=time.time() - t0,
+                   detail="no re.sub / pattern.sub call in filters.py passes a count (R4's precondition: every match is replaced)",
+                   output="count-limited substitution: %s" % limited if limited else ""))
+    t1 = time.time()
+    bad, n = [], 0
+    specials = "&<>\"'"
+    for length in (33, 40, 100, 1000):
+        for s in (specials[i % 5] * length for i in range(5)):
+            for name, fn in (("x", F.xml_escape), ("h", F.html_escape), ("entity", F.html_entities_escape)):
+                n += 1
+                out = str(fn(s))
+                raw = "<>\"" if name == "entity" else "<>\"'"          # the apostrophe has no named HTML entity: `entity` leaves it
+                if html.unescape(out) != s or any(c in out for c in raw) or "&" in out.replace("&amp;", "").replace("&lt;", "").replace("&gt;", "").replace("&#39;", "").replace("&#34;", "").replace("&quot;", "").replace("&apos;", "").replace("&#x27;", ""):
+                    bad.append({"filter": name, "input": "%r * %d" % (s[0], length), "output_tail": out[-40:]})
+        mixed = (specials * length)[:length * 3]
+        for name, fn in (("x", F.xml_escape), ("h", F.html_escape)):
+            n += 1
+            if html.unescape(str(fn(mixed))) != mixed or any(c in str(fn(mixed)) for c in "<>\"'"):
+                bad.append({"filter": name, "input": "mixed specials, %d characters" % len(mixed)})
+    bound = "strings of 33, 40, 100, 1000 markup characters (each special alone and mixed) through x, h, entity"
+    if bad:
+        rep.add(Result("C10.long-strings", VIOLATED, klass="B", backend="native-enum", function="mako.filters", bound=bound, evaluations=n,
+                       detail="markup survives escaping: %s" % bad[0], witness=bad[0], replayed=True, replay={"failures": bad[:3]}, time_s=time.time() - t1))
+    else:
+        rep.add(Result("C10.long-strings", BOUNDED_OK, klass="B", backend="native-enum", function="mako.filters", bound=bound, evaluations=n, time_s=time.time() - t1,
+                       detail="no raw markup character in the output; decoding gives the input back"))
+
+
 def run(rep, tier):
     rep.trust(*BASE_TRUST)
     rep.trust("rex.charset: exact sets of code-point ranges computed from re._parser trees")
@@ -148,4 +191,7 @@ def run(rep, tier):
     run_pyvc(rep, ["mako.filters:htmlentityreplace_errors", "mako.filters:trim", "mako.filters:url_escape",
                    "mako.filters:Decode.__getattr__.decode", "mako.util:FastEncodingBuffer.getvalue"], native_limit=0)
     set_obligations(rep)
+    whole_string(rep, tier)
     exhaustive(rep, tier)
+    from vrf.propkit import link_bounded_witness
+    link_bounded_witness(rep)
